@@ -28,6 +28,11 @@ Accepted grammar (tokens: identifiers, decimal int literals, keywords, `( ) { } 
              | '(' expr ')' | '(' expr ',' expr { ',' expr } ')'
              | 'if' expr stmt [ 'else' stmt ]       ('else' must follow on the same line, as in parse.rs)
              | block
+ext mode (only for `extend array<T>` member functions, Prelude.extend_fn; the Equal/Ord/Hash blocks are
+still parsed WITHOUT it): additionally `[ ] +`; postfix index `e '[' expr ']'` (bp 12); binary `+` `-`
+(bp 6, left-assoc); statement `e '[' expr ']' '=' expr`; named types (`-> range`); the receiver of a
+method call may be a local (`self.len()`), which parses to the same node as `Interface.method(...)`.
+
 Refused on sight: `match`, `while`, `for`, `break`, `continue`, `task`, lambdas (`->` after a term),
 bare `return`, compound assignment, type annotations on `let`, default arguments, attributes,
 member access other than IDENT.IDENT(args), indexing, `!`/`?`, arithmetic, strings, floats.
@@ -180,6 +185,51 @@ class Prelude:
             raise v
         return v
 
+    def extend_fn(self, recv, name):
+        """Method `name` of `extend <recv> { ... }` (recv e.g. 'array<T>'), cut by name.  There may be
+        several `extend array<...>` blocks; the method must be defined exactly once across ALL blocks
+        whose receiver starts with the same type constructor, and that one must be in a `<recv>` block.
+        Only that function's text is parsed (ext mode); its neighbours may be outside the subset."""
+        k = ('ext', recv, name)
+        if k not in self._cache:
+            try:
+                ctor = recv.split('<')[0]
+                hits = []
+                for m in re.finditer(r'^[ \t]*extend[ \t]+([^\n{]*?)[ \t]*\{', self.masked, re.M):
+                    if _depth_at(self.masked, m.start()) != 0:
+                        continue
+                    ty = re.sub(r'\s+', ' ', m.group(1)).strip()
+                    if ty.split('<')[0].strip() != ctor:
+                        continue
+                    bstart, bend = m.end() - 1, _match_brace(self.masked, m.end() - 1)
+                    for f in re.finditer(r'^[ \t]*fn[ \t]+%s[ \t]*\(' % re.escape(name), self.masked[bstart:bend], re.M):
+                        pos = bstart + f.start()
+                        if _depth_at(self.masked, pos) == 1:
+                            hits.append((ty, pos, bend))
+                if len(hits) != 1 or hits[0][0] != recv:
+                    raise Unsupported("expected exactly one `fn %s` in the `extend %s` blocks of %s, found %s"
+                                      % (name, recv, self.path, [h[0] for h in hits]))
+                ty, start, bend = hits[0]
+                start = self.masked.index('fn', start)
+                nl = self.masked.find('\n', start)
+                brace = self.masked.find('{', start, nl)
+                end = _match_brace(self.masked, brace) + 1 if brace >= 0 else nl
+                if end > bend:
+                    raise Unsupported("function text runs past its block")
+                raw, masked = self.src[start:end], self.masked[start:end]
+                p = Parser(lex(masked, ext=True), "extend %s :: fn %s" % (recv, name), ext=True)
+                p.skip_newlines()
+                fn = p.parse_fn_def()
+                p.skip_newlines()
+                p.expect('eof')
+                self._cache[k] = dict(fn=fn, text=raw, sha=sha(raw), header="extend %s :: fn %s" % (recv, name))
+            except Unsupported as e:
+                self._cache[k] = e
+        v = self._cache[k]
+        if isinstance(v, Exception):
+            raise v
+        return v
+
     def free_fn(self, name):
         k = ('fn', name)
         if k not in self._cache:
@@ -225,7 +275,8 @@ _PUNCT2 = ('==', '!=', '<=', '>=', '->')
 _PUNCT1 = '(){},;:=<>.-'
 
 
-def lex(masked):
+def lex(masked, ext=False):
+    """ext=True additionally accepts `[ ] +` (array subset, see Parser ext mode)."""
     toks = []
     i, n, line = 0, len(masked), 1
     while i < n:
@@ -269,7 +320,7 @@ def lex(masked):
             raise Unsupported("compound assignment at line %d" % line)
         elif c == '.' and masked[i:i + 2] == '..':
             raise Unsupported("`..` at line %d" % line)
-        elif c in _PUNCT1:
+        elif c in _PUNCT1 or (ext and c in '[]+' and masked[i:i + 2] != '+='):
             toks.append(Tok('op', c, line))
             i += 1
         else:
@@ -287,14 +338,16 @@ class FnDef:
 
 BINOPS = {'and': 1, 'or': 1, '==': 2, '!=': 2, '<': 5, '<=': 5, '>': 5, '>=': 5}
 NOT_BP = 10
-MEMBER_BP, CALL_BP = 11, 13
+MEMBER_BP, INDEX_BP, CALL_BP = 11, 12, 13
 
 
 class Parser:
-    def __init__(self, toks, where):
+    def __init__(self, toks, where, ext=False):
         self.t = toks
         self.i = 0
         self.where = where
+        self.ext = ext          # array subset: `a[i]`, `a[i] = e`, binary + and -, named types
+        self.binops = dict(BINOPS, **{'+': 6, '-': 6}) if ext else BINOPS
 
     # -- token helpers
     def peek(self, k=0):
@@ -357,6 +410,8 @@ class Parser:
             while self.at('ident'):
                 cons.append(self.next().text)
             return ('poly', name, tuple(cons))
+        if self.ext and self.at('ident'):
+            return ('named', self.next().text)
         if allow_tuple and self.at('op', '('):
             self.next()
             elems = [self.parse_type()]
@@ -477,6 +532,10 @@ class Parser:
             self.bad("loop construct `%s` is outside the loop-free subset" % tok.text)
         e = self.parse_expr()
         if self.at('op', '='):
+            if self.ext and e[0] == 'index':
+                self.next()
+                rhs = self.parse_expr()
+                return ('assign_index', e[1], e[2], rhs)
             if e[0] != 'var':
                 self.bad("assignment target outside the subset")
             self.next()
@@ -516,17 +575,25 @@ class Parser:
                 self.next()
                 lhs = ('member', lhs, self.expect('ident').text)
                 continue
-            op = tok.text if (tok.kind == 'op' or tok.kind == 'kw') and tok.text in BINOPS else None
+            if self.ext and tok.kind == 'op' and tok.text == '[':
+                if INDEX_BP <= bp:
+                    break
+                self.next()
+                idx = self.parse_expr()
+                self.expect('op', ']')
+                lhs = ('index', lhs, idx)
+                continue
+            op = tok.text if (tok.kind == 'op' or tok.kind == 'kw') and tok.text in self.binops else None
             if op is None:
                 if tok.kind == 'op' and tok.text in ('->', '-'):
                     self.bad("operator outside the subset")
                 break
-            if BINOPS[op] <= bp:
+            if self.binops[op] <= bp:
                 break
             self.next()
             if self.at('nl'):
                 self.bad("line break after a binary operator")
-            rhs = self.parse_expr_bp(BINOPS[op])
+            rhs = self.parse_expr_bp(self.binops[op])
             lhs = ('binop', op, lhs, rhs)
         return lhs
 
@@ -637,6 +704,8 @@ def show(e):
         return s + (' else %s' % show_stmt(e[3]) if e[3] else '')
     if k == 'block':
         return '{ %s }' % '; '.join(show_stmt(s) for s in e[1])
+    if k == 'index':
+        return '%s[%s]' % (show(e[1]), show(e[2]))
     return repr(e)
 
 
@@ -648,6 +717,8 @@ def show_stmt(s):
         return '%s %s = %s' % ('var' if s[1] else 'let', ps, show(s[3]))
     if k == 'assign':
         return '%s = %s' % (s[1], show(s[2]))
+    if k == 'assign_index':
+        return '%s[%s] = %s' % (show(s[1]), show(s[2]), show(s[3]))
     if k == 'return':
         return 'return %s' % show(s[1])
     return show(s[1])
